@@ -20,7 +20,7 @@ func init() {
 
 func runC01(c *core.Ctx) {
 	runFixtures(c, "valid")
-	c.Explain("Differential equivalence with package os over histories is not decidable statically. Decided, exhaustively over a finite space: (R01.1) the flag decision table of the key-value FS's OpenFile — for all 48 flag values (3 access modes x O_APPEND/O_CREATE/O_EXCL/O_TRUNC, constants of the loaded target) x {target missing with parent a directory / parent missing / parent a regular file; target a regular file; target a directory} = 240 cells the single feasible path through the function is followed by evaluating its flag tests as constants and its look-up tests from the situation, and the outcome (handle kind by control dependence of the wrapper constructed, create reached, truncate reached, or the sentinel of the returned error) must equal the reference table of os.OpenFile; a test the evaluator cannot classify makes the cell undecided (= failure); (R01.2) permission masking: every value that reaches the mode of a newly built record from a perm/mode parameter of Mkdir, MkdirAll, OpenFile crosses '& const' with const within ModePerm, Chmod's stored mode crosses '& const' within ModePerm|Setuid|Setgid|Sticky, and directory records are or-ed with ModeDir — invisible to the suite, which compares modes under a zero mask. (R01.3) every strings.HasPrefix relating two names in package keyvalue (Rename's 'moved into itself' guard) uses a prefix ending in '/' — os compares path elements, so Rename(\"lib\", \"lib64/lib\") must not be refused; (R01.4) every nil return of the key-value MkdirAll lies on a path that passed the success edge of the ancestor classifier (which answers a regular file anywhere in the chain, the leaf included, with ErrNotDir) or an IsDir()-true test of a look-up of the path — os.MkdirAll succeeds only if the path is a directory afterwards; (R01.5) Rename stores the record it loaded under the new name and constructs no record of its own — a fresh record loses what the old one carried (the modification time set by Chtimes, which os.Rename keeps); (R01.6) on every path on which OpenFile returns a handle, the flag parameter was stored into the handle's record (field store or constructor argument) — a handle that loses O_APPEND writes at its offset instead of the end; R01.1 also evaluates, one level deep, the flag tests inside the handle's Truncate that OpenFile calls for O_TRUNC. Existence/kind preconditions of the other mutations are C03's. (R01.7/R01.8) the create-site analyses of R03.1/R03.5 under this property; (R01.9) the in-memory listing compares child names with constants only; (R01.10) no store to the modification-time field is reachable from Chmod, Stat, Rename, reads, seeks, ReadDir or Close; (R01.11) the by-name look-up classifies the ancestors of a missing name (known finding). (R01.12) times are compared with IsZero/Equal, never with ==. (R01.13) Rename stores a directory under the new name only on the edge where that name was found absent; (R01.14) no by-name method returns a constant nil before its look-up. (R01.15) the whole-file write helper (the fallback mem and keyvalue use) reaches no Chmod/Chtimes/Chown: os.WriteFile uses perm only when it creates the file. NOT claimed: results, data and trees equal to os over histories; Rename/Remove/RemoveAll semantics beyond C03; modification times.")
+	c.Explain("Differential equivalence with package os over histories is not decidable statically. Decided, exhaustively over a finite space: (R01.1) the flag decision table of the key-value FS's OpenFile — for all 48 flag values (3 access modes x O_APPEND/O_CREATE/O_EXCL/O_TRUNC, constants of the loaded target) x {target missing with parent a directory / parent missing / parent a regular file; target a regular file; target a directory} = 240 cells the single feasible path through the function is followed by evaluating its flag tests as constants and its look-up tests from the situation, and the outcome (handle kind by control dependence of the wrapper constructed, create reached, truncate reached, or the sentinel of the returned error) must equal the reference table of os.OpenFile; a test the evaluator cannot classify makes the cell undecided (= failure); (R01.2) permission masking: every value that reaches the mode of a newly built record from a perm/mode parameter of Mkdir, MkdirAll, OpenFile crosses '& const' with const within ModePerm, Chmod's stored mode crosses '& const' within ModePerm|Setuid|Setgid|Sticky, and directory records are or-ed with ModeDir — invisible to the suite, which compares modes under a zero mask. (R01.3) every strings.HasPrefix relating two names in package keyvalue (Rename's 'moved into itself' guard) uses a prefix ending in '/' — os compares path elements, so Rename(\"lib\", \"lib64/lib\") must not be refused; (R01.4) every nil return of the key-value MkdirAll lies on a path that passed the success edge of the ancestor classifier (which answers a regular file anywhere in the chain, the leaf included, with ErrNotDir) or an IsDir()-true test of a look-up of the path — os.MkdirAll succeeds only if the path is a directory afterwards; (R01.5) Rename stores the record it loaded under the new name and constructs no record of its own — a fresh record loses what the old one carried (the modification time set by Chtimes, which os.Rename keeps); (R01.6) on every path on which OpenFile returns a handle, the flag parameter was stored into the handle's record (field store or constructor argument) — a handle that loses O_APPEND writes at its offset instead of the end; R01.1 also evaluates, one level deep, the flag tests inside the handle's Truncate that OpenFile calls for O_TRUNC. Existence/kind preconditions of the other mutations are C03's. (R01.7/R01.8) the create-site analyses of R03.1/R03.5 under this property; (R01.9) the in-memory listing compares child names with constants only; (R01.10) no store to the modification-time field is reachable from Chmod, Stat, Rename, reads, seeks, ReadDir or Close; (R01.11) the by-name look-up classifies the ancestors of a missing name (known finding). (R01.12) times are compared with IsZero/Equal, never with ==. (R01.13) Rename stores a directory under the new name only on the edge where that name was found absent; (R01.14) no by-name method returns a constant nil before its look-up. (R01.15) the whole-file write helper (the fallback mem and keyvalue use) reaches no Chmod/Chtimes/Chown: os.WriteFile uses perm only when it creates the file. (R01.16) = R08.8 under C01. NOT claimed: results, data and trees equal to os over histories; Rename/Remove/RemoveAll semantics beyond C03; modification times.")
 	c.Assume("reference table of os.OpenFile semantics frozen in the checker (documented in DESIGN.md §3 C01)")
 	c.RuleDoc("R01.1", "OpenFile flag decision table, exhaustive over 240 cells")
 	c.RuleDoc("R01.2", "permission masking on create and chmod")
